@@ -211,7 +211,7 @@ class DenseOutput(object):
         return hasattr(piece, "t0") and hasattr(piece, "t1") and bool(piece.t1 < piece.t0)
 
     def find_interval(self, t):
-        if self.t_eval is None:
+        if self.t_eval is None or len(self.t_eval) == 0:
             raise ValueError("No interpolant has been added and time interval is not defined!")
         idx = min(deutil.search_bisection(self.t_eval, t), len(self.y_interpolants) - 1)
         if idx > 0 and t < self.t_eval[idx] and self.__stored_backward():
@@ -219,7 +219,7 @@ class DenseOutput(object):
         return idx
 
     def find_interval_vec(self, t):
-        if self.t_eval is None:
+        if self.t_eval is None or len(self.t_eval) == 0:
             raise ValueError("No interpolant has been added and time interval is not defined!")
         out = deutil.search_bisection_vec(self.t_eval_arr, t)
         out[out > len(self.y_interpolants) - 1] = len(self.y_interpolants) - 1
